@@ -51,12 +51,12 @@ CHECKS = {
          "DESIGN.md §5 C07"),
  "C09": ("mc-graph", "model_checking",
          "exhaustive enumeration of contributor multisets and all their permutations on the real TypeAggregator against a reference merge",
-         "All multisets of 2..4 (quick) / 2..5 (thorough) contributors from a 24-contributor universe (a:b/i at 13 versions incl. multi-digit and prefix-trap versions, a hand-written contributor whose exports share one type index with overlapping/disjoint/conflicting export sets, equal and conflicting functions, a kind clash on one track, nested instances, and WIT-derived interfaces that `use` one or two types of a compatible or incompatible version of another merged interface, so that one contributor has a `use` the other lacks), each decoded into its own Types collection, and every permutation of each, are aggregated. Checked: verdict equals the reference merge and is the same for every permutation; the name->canonical-type map is the same for every permutation; the canonical name is the highest version of its track and every lower name redirects to it; the merged type satisfies every contributor (fresh SubtypeChecker); re-aggregating every contributor changes nothing; no panic.",
+         "All multisets of 2..5 (both tiers: the former thorough bound takes under 10 s) contributors from a 24-contributor universe (a:b/i at 13 versions incl. multi-digit and prefix-trap versions, a hand-written contributor whose exports share one type index with overlapping/disjoint/conflicting export sets, equal and conflicting functions, a kind clash on one track, nested instances, and WIT-derived interfaces that `use` one or two types of a compatible or incompatible version of another merged interface, so that one contributor has a `use` the other lacks), each decoded into its own Types collection, and every permutation of each, are aggregated. Checked: verdict equals the reference merge and is the same for every permutation; the name->canonical-type map is the same for every permutation; the canonical name is the highest version of its track and every lower name redirects to it; the merged type satisfies every contributor (fresh SubtypeChecker); re-aggregating every contributor changes nothing; no panic.",
          "Trusts the reference merge (A.3) and, for satisfaction, wac's SubtypeChecker (tied to the reference validator by C07). For mixes of hand-described and WIT-derived contributors the reference gives no verdict on success/failure (counted as unspecified) but all order-independence and law checks still apply.",
          "DESIGN.md §5 C09, A.3"),
  "C10": ("mc-graph", "exploration",
          "exhaustive enumeration of sockets x ordered plug lists on the real plug(), graph and encoding compared with the statement",
-         "10 sockets (incl. two importing two versions of one interface on the same semver track, in ascending and descending order) x all ordered lists of 1..3 (quick) / 1..4 (thorough) plugs from a 12-plug universe (exact and semver-compatible versioned names, incompatible tracks, type-incompatible same-named items, plugs with nothing to offer, a plug with its own import, a plug exporting two versions on one track, one repeated plug) are plugged on fresh graphs. On success every matchable socket import must be supplied by the designated export of the designated plug (graph queries and E2 reading of both encodings), every other import remains an import, socket exports are re-exported from the socket instance under their names, idle plugs are not instantiated, and both encodings validate; a contested import must fail; NoPlugHappened iff nothing was matchable.",
+         "10 sockets (incl. two importing two versions of one interface on the same semver track, in ascending and descending order) x all ordered lists of 1..4 (both tiers: the former thorough bound takes under 10 s) plugs from a 12-plug universe (exact and semver-compatible versioned names, incompatible tracks, type-incompatible same-named items, plugs with nothing to offer, a plug with its own import, a plug exporting two versions on one track, one repeated plug) are plugged on fresh graphs. On success every matchable socket import must be supplied by the designated export of the designated plug (graph queries and E2 reading of both encodings), every other import remains an import, socket exports are re-exported from the socket instance under their names, idle plugs are not instantiated, and both encodings validate; a contested import must fail; NoPlugHappened iff nothing was matchable.",
          "Offers are computed from the library descriptors with the resource-free structural subtype rule. 'Same name or, failing that, a semver-compatible name' is read from the export's side: an export named exactly like a socket import belongs to that import only. One plug offering two candidates for one import, and one export with two semver-compatible socket imports and no same-named one, are outside the statement (no verdict).",
          "DESIGN.md §5 C10"),
  "C01": ("mc-graph", "model_checking",
@@ -81,7 +81,7 @@ CHECKS = {
          "DESIGN.md §4 E1, §5 C06, A.1"),
  "C15": ("mc-graph", "model_checking",
          "explicit-state exploration of NameMap insertion histories in lock-step with a reference map + exhaustive pair enumeration",
-         "Every ordered pair of a 272-name universe is compared with an independent implementation of the semver track relation, and every NameMap insertion history up to depth 3 (quick) / 4 (thorough) over 16 colliding names is explored on the real map; in every reached state every universe name is looked up and compared with the reference answer, and states reached by different orders of the same insertions must answer identically.",
+         "Every ordered pair of a 272-name universe is compared with an independent implementation of the semver track relation, and every NameMap insertion history up to depth 4 (both tiers) over 16 colliding names is explored on the real map; in every reached state every universe name is looked up and compared with the reference answer, and states reached by different orders of the same insertions must answer identically.",
          "Trusts the reference relation (written from the property statement on an independent semver.org parse). Names outside the universe and histories deeper than the bound are not covered.",
          "DESIGN.md §5 C15, A.6"),
  "C12": ("mc-lang", "exploration",
